@@ -10,7 +10,8 @@
 (*   idle       harness: before calling get* (and after drop returned)     *)
 (*   get_want   hook POOL_LOCK_BEFORE inside BumpPool::lock, called by get *)
 (*   get_cs     hook POOL_LOCK_HELD: mutex held, `pop` not executed yet    *)
-(*   get_create the base allocator is cloned for a new arena (pop = None)  *)
+(*   get_create inside the base allocator's first `allocate` for a new    *)
+(*              arena (pop = None): the instant of creation               *)
 (*   get_post   hook POOL_GET_AFTER: mutex released, arena in hand         *)
 (*   holding    harness: get returned a guard                              *)
 (*   used       harness: blocks were allocated and written through it      *)
@@ -35,20 +36,31 @@
 (* the match: the new arena is created WHILE THE MUTEX IS HELD (confirmed  *)
 (* on the real code: with a thread parked in the allocator's `clone`, no   *)
 (* other thread gets past `lock()`).  CreateUnderLock = TRUE models this.  *)
+(* Looking for an idle arena and creating a new one is therefore ONE       *)
+(* atomic step of the pool, and that is what the reuse clause of C19 needs *)
+(* ("an arena returned by a dropped guard is reused before a new one is    *)
+(* created"): at the instant an arena is created -- the first request to   *)
+(* the base allocator for it -- no arena is idle (CreatedOnlyWhenIdleEmpty). *)
 (* CreateUnderLock = FALSE models the variant in which the guard is        *)
 (* dropped right after `pop` and the arena is created outside the critical *)
-(* section (a legitimate refactoring); every invariant below is checked    *)
-(* for both variants.                                                      *)
+(* section.  It looks like a harmless refactoring ("don't call the base     *)
+(* allocator while holding the lock") but VIOLATES C19: a guard dropped    *)
+(* between the empty lookup and the creation returns its arena, and get    *)
+(* still creates a fresh one -- more arenas than guards were ever live at  *)
+(* the same time.  MC_Pool_outside.cfg makes TLC exhibit that behaviour    *)
+(* (an expected refutation, like MC_Pool_naive.cfg); the variant is also   *)
+(* what the PROBE schedules of the conformance harness are generated from. *)
 (*                                                                         *)
 (* WHAT "PEAK NUMBER OF LIVE GUARDS" MUST COUNT.  The pool cannot see a    *)
-(* guard; it sees an arena leave the stack (pop, or the decision to create *)
-(* because the stack is empty) and come back (push).  A thread OWNS an     *)
-(* arena from that decision inside get's critical section until the push   *)
-(* inside drop's critical section; this interval contains the life of the  *)
-(* guard object (constructed right after, destroyed right before).  The    *)
-(* invariant that follows from the code is                                 *)
-(*      number of arenas created or being created  <=  peak                *)
-(* where peak is the maximum number of simultaneous OWNERS (ReuseOK).      *)
+(* guard; it sees an arena leave the stack (pop) or come into being        *)
+(* (creation, when the stack is empty) and come back (push).  A thread     *)
+(* OWNS an arena from the moment the arena is in its hands -- popped, or   *)
+(* created -- until the push inside drop's critical section; this interval *)
+(* contains the life of the guard object (constructed right after,         *)
+(* destroyed right before).  The invariant that follows from the code is   *)
+(*      number of arenas ever created  <=  peak                            *)
+(* where peak is the maximum number of simultaneous OWNERS (ReuseOK), and  *)
+(* it is an equality (ReuseTight).                                         *)
 (* With the narrower count "get has returned and drop has not been called  *)
 (* yet" (speak below) the inequality is FALSE for the code: T1 holds the   *)
 (* only arena and has entered drop but not pushed yet, T2's get finds the  *)
@@ -88,7 +100,8 @@ vars == <<pc, mutex, idle, used, has, fresh, blocks, chunks, round, phase, alive
 
 PCs == {"idle", "get_want", "get_cs", "get_create", "get_post", "holding", "used", "drop_want", "drop_cs", "drop_post"}
 
-Owners(h)      == {t \in Threads : h[t] # NoArena}
+\* owners: threads with an existing arena in their hands (while the arena is still being created it is not counted)
+Owners(h, p)   == {t \in Threads : h[t] # NoArena /\ p[t] # "get_create"}
 StrictLive(p)  == {t \in Threads : p[t] \in {"holding", "used"}}
 InHands        == {has[t] : t \in Threads} \ {NoArena}
 \* a fresh arena id for the model checker; PoolTrace binds the id that the implementation reports instead
@@ -118,7 +131,7 @@ Init ==
 \* every action moves exactly one thread; the two history maxima are maintained here
 Goto(t, l, h) ==
     /\ pc' = [pc EXCEPT ![t] = l]
-    /\ peak' = Max(peak, Cardinality(Owners(h)) + Cardinality(leaked))   \* a forgotten guard stays live for ever
+    /\ peak' = Max(peak, Cardinality(Owners(h, [pc EXCEPT ![t] = l])) + Cardinality(leaked))   \* a forgotten guard stays live for ever
     /\ speak' = Max(speak, Cardinality(StrictLive([pc EXCEPT ![t] = l])))
 
 (*************************** BumpPool::get* ********************************)
@@ -346,15 +359,19 @@ Exclusive     == ExclusiveC(has) /\ \A t \in Threads : has[t] \notin leaked
 IdleDisjoint  == IdleDisjointC(has, idle) /\ Range(idle) \cap leaked = {}
 \* no arena is ever lost or duplicated while the pool exists: created or being created = idle or in hands
 Conservation  == alive => (used \subseteq Range(idle) \cup InHands \cup leaked /\ Range(idle) \subseteq used)
-\* C19 clause 2: reuse before create -- arenas created or being created never outnumber the peak of simultaneous owners
-ReuseOK       == ReuseC(everCreated + Cardinality(InHands \ used), peak)
+\* C19 clause 2: reuse before create -- the arenas ever created never outnumber the peak of simultaneous owners
+ReuseOK       == ReuseC(everCreated, peak)
 \* ... and in fact they are equal: the pool never holds back an arena either
-ReuseTight    == (alive /\ ~MayFail) => everCreated + Cardinality(InHands \ used) = peak
+ReuseTight    == alive => everCreated = peak
 \* C19 clause 3: whatever was allocated through any guard is still in its arena, whoever holds the arena now
 DataIntact    == DataIntactC(written, blocks, chunks)
 \* a decision to create is only taken when the idle stack is empty
 DecideCreateOnlyWhenIdleEmpty ==
     [][\A t \in Threads : (has[t] = NoArena /\ has'[t] # NoArena /\ has'[t] \notin used) => idle = <<>>]_vars
+\* C19 clause 2, as a statement about the instant of creation: when an arena comes into being (the step that performs
+\* the first base-allocator request for it) no arena is idle -- an arena returned by a dropped guard is reused first
+CreatedOnlyWhenIdleEmpty ==
+    [][\A t \in Threads : (pc[t] = "get_create" /\ pc'[t] = "get_post") => NoIdleAtCreationC(Len(idle))]_vars
 \* blocks never disappear except by a pool-wide operation
 BlocksOnlyForgottenByPoolOps ==
     [][(\E a \in used : a \in DOMAIN blocks' /\ ~(blocks[a] \subseteq blocks'[a])) => phase' # phase]_vars
